@@ -31,7 +31,7 @@ def run(tier, seed, replay=None):
         "rule": "TLC enumerates all class sequences of length <= 2 over %d classes x {pre-handshake, established} (%d vectors); every "
                 "length-1 vector and a seeded sample of %d longer ones are concretised (%d seeded byte instance(s) each) and sent on a "
                 "fresh session over each of tcp, udp, ws and an embedded backend to a real node in a child process; "
-                "distinct = distinct (transport, start phase, class sequence)" % (166, nvec, limit, inst),
+                "distinct = distinct (transport, start phase, class sequence)" % (176, nvec, limit, inst),
         "samples": res["samples"][:3], "exhaustive": False,
         "states": r.distinct, "transitions": r.generated, "vectors_enumerated": nvec,
         "counters": res["counters"], "spec_closure_mismatch_notes": res.get("notes") or [], "witnesses": wit,
